@@ -104,8 +104,11 @@ CHECKS = [
     {"property_id": "C18", "level": "model_checking", "design_ref": "DESIGN.md §6 C18",
      "text": "Every single-object serialization / deserialization event of the drivers (random values of the schema scope; slice and chunked readers; trailing "
              "garbage; truncation at every header length; every header byte corrupted; the same message under schemas with a different canonical form) is "
-             "validated by TLC against C3 01 ++ LE(CRC-64-AVRO(Pcf(schema))) ++ Enc(value) and the header-check rules.",
-     "note": TLC_NOTE, "technique": "TLA+ spec of the single-object format (Pcf + Crc + AvroBinary); real encode/decode events trace-validated by TLC"},
+             "validated by TLC against C3 01 ++ LE(CRC-64-AVRO(Pcf(schema))) ++ Enc(value) and the header-check rules. SingleObject.tla (the calls made on "
+             "the caller's sink and source) is model-checked over all sink / source schedules with three refuted mutants, and every finished behaviour is "
+             "replayed into to_single_object / from_single_object_reader.",
+     "note": TLC_NOTE, "technique": "TLA+ spec of the single-object format (Pcf + Crc + AvroBinary) with real encode/decode events trace-validated by TLC; "
+                                    "TLA+ call-level model (SingleObject.tla) model-checked by TLC, its behaviours replayed into the real functions"},
     {"property_id": "C19", "level": "model_checking", "design_ref": "DESIGN.md §6 C19",
      "text": "TLC enumerates ALL node vectors of <= 2 (3 thorough) nodes with arbitrary keys and classifies them with a terminating traversal (ok / unnamed "
              "cycle / dangling / empty); fingerprint, JSON rendering and freeze are run on each in separate child-process commands (a stack overflow is an "
